@@ -456,7 +456,64 @@ def h_match_rule(rp):
     return out
 
 
-HANDLERS = [("ctparse._match_rule", h_match_rule), ("ctparse._ctparse.emission", h_emission), ("ctparse._ctparse", h_deadline), ("ctparse._regex_stack", h_deadline), ("ctparse._get_labels", h_labels), ("ctparse.ctparse[", h_ctparse), ("regex[", h_reglan),
+def _close(a, b, tol=1e-9):
+    import math
+    return abs(a - b) <= tol * max(1.0, abs(a), abs(b)) or (math.isnan(a) and math.isnan(b))
+
+
+def h_nb(rp):
+    import importlib
+    import math
+    from spec import nb as SPEC
+    E = importlib.import_module("ctparse.nb_estimator")
+    out = {"func": rp["func"], "clause": rp["clause"]}
+    f = rp["func"]
+    a = rp["args"]
+    try:
+        if "predict_log_probability" in f:
+            m, docs = a
+            est = E.MultinomialNaiveBayes(1.0)
+            est.class_prior = tuple(m["attrs"]["class_prior"])
+            est.log_likelihood = {k: list(v) for k, v in m["attrs"]["log_likelihood"].items()}
+            X = [{int(k): v for k, v in d.items()} for d in docs]
+            got = est.predict_log_probability(X)
+            want = []
+            for d in X:
+                jn = est.class_prior[0] + sum(est.log_likelihood["negative_class"][i] * c for i, c in d.items())
+                jp = est.class_prior[1] + sum(est.log_likelihood["positive_class"][i] * c for i, c in d.items())
+                want.append(SPEC.posterior((jn, jp)))
+            out["real"], out["textbook"] = [list(x) for x in got], [list(x) for x in want]
+            out["confirmed"] = len(got) != len(want) or any(not _close(g[i], w[i]) for g, w in zip(got, want) for i in (0, 1))
+            return out
+        if "_construct_log_class_prior" in f:
+            ys = a[0]
+            got = E.MultinomialNaiveBayes._construct_log_class_prior(ys)
+            nneg = sum(1 for y in ys if y == -1)
+            want = (math.log(nneg / len(ys)), math.log((len(ys) - nneg) / len(ys)))
+            out["real"], out["textbook"], out["y"] = list(got), list(want), ys
+            out["confirmed"] = any(not _close(g, w) for g, w in zip(got, want))
+            return out
+        if "_construct_log_likelihood" in f:
+            X, ys, alpha = a
+            X = [{int(k): v for k, v in d.items()} for d in X]
+            got = E.MultinomialNaiveBayes._construct_log_likelihood(X, ys, alpha)
+            V = max(X[0]) + 1
+            want = {}
+            for cname, cls in (("positive_class", 1), ("negative_class", -1)):
+                cnt = [alpha + sum(d.get(i, 0) for d, y in zip(X, ys) if y == cls) for i in range(V)]
+                want[cname] = [math.log(c) - math.log(sum(cnt)) for c in cnt]
+            out["real"], out["textbook"] = got, want
+            out["confirmed"] = any(not _close(g, w) for k in want for g, w in zip(got[k], want[k]))
+            return out
+    except Exception as e:
+        out["real_exception"] = repr(e)
+        out["confirmed"] = rp["clause"] == "no-exceptional-exit"
+        return out
+    out["confirmed"] = False
+    return out
+
+
+HANDLERS = [("nb_estimator.", h_nb), ("ctparse._match_rule", h_match_rule), ("ctparse._ctparse.emission", h_emission), ("ctparse._ctparse", h_deadline), ("ctparse._regex_stack", h_deadline), ("ctparse._get_labels", h_labels), ("ctparse.ctparse[", h_ctparse), ("regex[", h_reglan),
             ("types.Artifact.__eq__", h_eq), ("corpus.parse_nb_string.nb_str", h_roundtrip),
             ("postprocess_latent.apply_postprocessing_rules", h_postprocess),
             ("types.Time.", h_accessor), ("types.Interval.", h_accessor),
